@@ -654,6 +654,13 @@ def r06_7_alias_bookkeeping(ctx, rid='R06.7'):
             elif isinstance(x, ast.Call) and isinstance(x.func, ast.Attribute) and x.func.attr in MUTATORS \
                     and isinstance(x.func.value, ast.Attribute) and x.func.value.attr in PYYAML_ALIAS_STATE:
                 tgt = x
+            if tgt is not None and isinstance(tgt, ast.Subscript) and isinstance(tgt.ctx, ast.Store) and tgt.value.attr == 'represented_objects' \
+                    and isinstance(tgt.slice, ast.Call) and isinstance(tgt.slice.func, ast.Name) and tgt.slice.func.id == 'id' \
+                    and len(tgt.slice.args) == 1 and isinstance(tgt.slice.args[0], ast.Name) and tgt.slice.args[0].id in ('data', 'path'):
+                # the one legitimate write (R06.16): the node that a sweeten hook put in the place of the represented one is filed
+                # for the object itself - keyed by id(<the object>), never by alias_key
+                r.ok('%s: represented_objects[id(%s)] re-filed after sweetening' % (m.name, tgt.slice.args[0].id))
+                continue
             if tgt is not None:
                 r.fail('%s:alias-bookkeeping:%s' % (m.name, norm(tgt)[:60]), '%s:%d' % (m.path, tgt.lineno),
                        '%s writes PyYAML\'s alias bookkeeping: alias_key is overwritten by every nested represent_data call, so a node '
@@ -669,6 +676,34 @@ def r06_7_alias_bookkeeping(ctx, rid='R06.7'):
     if ctrl == 0:
         raise AnalysisError('positive control failed: no write to represented_objects found in yaml/representer.py')
     r.ok('no write to %s in yatiml (%d nodes scanned; control: %d such writes in yaml/representer.py)' % (sorted(PYYAML_ALIAS_STATE), n, ctrl))
+    r.done()
+
+
+def r06_16_replaced_node_filed(ctx, rid='R06.16'):
+    """PyYAML files the node of an object under id(object) while it represents it (represent_mapping / represent_scalar), and hands
+    that node out again for every further reference to the same object.  A _yatiml_sweeten that *replaces* the node (set_value,
+    make_mapping) leaves the filed node behind: the second reference to the object is written from the unsweetened node."""
+    P = ctx.P
+    r = ctx.rule(rid, 'a node that a sweeten hook put in the place of the represented node is what later references to the same '
+                      'object get (it is filed under id(object) in represented_objects)', floor=3)
+    for key in ('yatiml.representers:Representer.__call__', 'yatiml.representers:EnumRepresenter.__call__',
+                'yatiml.representers:UserStringRepresenter.__call__'):
+        f = fn(P, key)
+        obj = f.fi.params[2] if len(f.fi.params) > 2 else 'data'
+        back = [n for n in f.walk() if isinstance(n, ast.Assign) and isinstance(n.value, ast.Attribute) and n.value.attr == 'yaml_node' and f.live(n)]
+        direct = [x for x in f.returns() if isinstance(x.value, ast.Attribute) and x.value.attr == 'yaml_node']
+        if not back and not direct:
+            r.ok('%s: the represented node cannot be replaced (no wrapper.yaml_node is read back)' % f.fi.qual)
+            continue
+        filed = [n for n in f.walk() if isinstance(n, ast.Assign) and len(n.targets) == 1 and isinstance(n.targets[0], ast.Subscript)
+                 and isinstance(n.targets[0].value, ast.Attribute) and n.targets[0].value.attr == 'represented_objects'
+                 and norm(n.targets[0].slice) == 'id(%s)' % obj and f.live(n)]
+        ok = bool(filed) and all(any(f.cfg.dominates(f.nid(b), f.nid(x)) for x in filed) for b in back)
+        r.check(ok, '%s: the node read back from the wrapper is filed under id(%s)' % (f.fi.qual, obj), f.key('replaced-node-not-filed'),
+                f.loc(back[0] if back else direct[0]),
+                '%s returns the node that the hook may have put in the place of the represented one, but PyYAML\'s represented_objects still '
+                'holds the node from before: a second reference to the same object (Addr(p, p), [p, p]) is written from the old node, '
+                'unsweetened, instead of as an alias of the first' % f.fi.qual)
     r.done()
 
 
